@@ -1,12 +1,13 @@
 #!/bin/sh
 # usage: seedcheck.sh <seed-dir-name> <property> [more properties...]
-# Applies /verif/seeded/<name>/patch.diff to /repo, runs the given property checks, reverts.
+# Applies /verif/seeded/<name>/patch.diff to a scratch copy of /repo's HEAD (outside /repo and /verif), runs the
+# given property checks against the copy (no evidence is written), removes the copy.
 name="$1"; shift
-cd /repo || exit 2
-if ! git diff --quiet; then echo "repo not clean"; exit 2; fi
-git apply "/verif/seeded/$name/patch.diff" || { echo "patch does not apply"; exit 2; }
+scratch=$(mktemp -d /var/tmp/jvc-seed.XXXXXX)
+(cd /repo && git archive HEAD) | tar -x -C "$scratch"
+if ! (cd "$scratch" && patch -s -p1 < "/verif/seeded/$name/patch.diff"); then echo "patch does not apply"; rm -rf "$scratch"; exit 2; fi
 for p in "$@"; do
   echo "== $name under $p"
-  (cd /verif && JVC_NO_EVIDENCE=1 ./check "$p" quick 2>&1 | grep -E 'VIOLATION|UNDECIDED|KNOWN|^jvc:' | cut -c1-260 | head -12; )
+  (cd /verif && JVC_REPO="$scratch" JVC_NO_EVIDENCE=1 ./check "$p" quick 2>&1 | grep -E 'VIOLATION|UNDECIDED|KNOWN|^jvc:' | cut -c1-260 | head -12; )
 done
-git -C /repo checkout -- .
+rm -rf "$scratch"
